@@ -13,6 +13,7 @@
 (* must be accepted, the object tree it denotes.                            *)
 (***************************************************************************)
 EXTENDS ParserImpl, TLC
+CONSTANT Mode      \* "c07": the core documents; "c08": plus out-of-range coordinates and the Circle convention
 VARIABLES b, mut
 vars == <<b, mut>>
 P2(x, y) == Arr(<<Num(x), Num(y)>>)
@@ -31,7 +32,7 @@ PointD == Obj(<<T("Point"), C(P2(1,2))>>)
 LineD == Obj(<<T("LineString"), C(Arr(<<P2(1,1), P2(2,3)>>))>>)
 PolyD == Obj(<<T("Polygon"), C(Arr(<<Ring1>>))>>)
 Props == <<"properties", Obj(<<<<"name", Str("a")>>, <<"n", Num(5)>>>>)>>
-BaseDocs == <<
+CoreDocs == <<
    PointD,
    Obj(<<T("Point"), C(P3(1,2,3))>>),
    Obj(<<T("Point"), C(P4(1,2,3,4)), <<"id", Num(5)>>>>),
@@ -63,6 +64,31 @@ BaseDocs == <<
    Obj(<<T("LineString"), C(Arr(<<P4(1,1,2,3), P4(2,3,4,5), P2(5,5)>>)), <<"properties", Null>>>>),
    Obj(<<T("MultiLineString"), C(Arr(<<Arr(<<P3(1,1,4), P3(2,3,5)>>), Arr(<<P2(4,4), P2(5,5)>>), Arr(<<P4(1,2,3,4), P3(2,1,6)>>)>>))>>)
 >>
+\* number tokens 8 and 9 are out of range (8: valid longitude, invalid latitude; 9: invalid as both) in every table
+CircleProps(units) == <<"properties", Obj(<<<<"type", Str("Circle")>>, <<"radius", Num(5)>>, <<"radius_units", Str(units)>>>>)>>
+ExtraDocs == <<
+   Obj(<<T("Point"), C(P2(9,1))>>), Obj(<<T("Point"), C(P2(1,8))>>), Obj(<<T("Point"), C(P2(8,1))>>),
+   Obj(<<T("LineString"), C(Arr(<<P2(1,1), P2(2,9)>>))>>),
+   Obj(<<T("Polygon"), C(Arr(<<Ring2, Arr(<<P2(2,2), P2(3,2), P2(3,8), P2(2,2)>>)>>))>>),
+   Obj(<<T("MultiPoint"), C(Arr(<<P2(9,1), P2(1,1)>>))>>),
+   Obj(<<T("MultiLineString"), C(Arr(<<Arr(<<P2(1,1), P2(2,3)>>), Arr(<<P2(4,4), P2(9,9)>>)>>))>>),
+   Obj(<<T("MultiPolygon"), C(Arr(<<Arr(<<Ring1>>), Arr(<<Ring2, Arr(<<P2(2,2), P2(3,2), P2(3,8), P2(2,2)>>)>>)>>))>>),
+   Obj(<<T("GeometryCollection"), <<"geometries", Arr(<<PointD, Obj(<<T("MultiPoint"), C(Arr(<<P2(1,8)>>))>>)>>)>>>>),
+   Obj(<<T("Feature"), <<"geometry", Obj(<<T("Point"), C(P2(1,9))>>)>>, Props>>),
+   Obj(<<T("FeatureCollection"), <<"features", Arr(<<Obj(<<T("Feature"), <<"geometry", PointD>>>>), Obj(<<T("Feature"), <<"geometry", Obj(<<T("LineString"), C(Arr(<<P2(8,8), P2(1,1)>>))>>)>>>>)>>)>>>>),
+   Obj(<<T("Feature"), <<"geometry", PointD>>, CircleProps("m")>>),
+   Obj(<<T("Feature"), <<"id", Num(3)>>, <<"geometry", Obj(<<T("Point"), C(P2(2,3))>>)>>, CircleProps("km")>>),
+   Obj(<<T("Feature"), <<"geometry", Obj(<<T("Point"), C(P3(2,3,4))>>)>>, CircleProps("m")>>),
+   Obj(<<T("FeatureCollection"), <<"features", Arr(<<Obj(<<T("Feature"), <<"geometry", PointD>>, CircleProps("m")>>), Obj(<<T("Feature"), <<"geometry", PolyD>>>>)>>)>>>>),
+   Obj(<<T("Polygon"), C(Arr(<<Arr(<<P2(1,1), P2(3,1), P2(3,4), P2(1,4), P2(1,1)>>)>>))>>),
+   Obj(<<T("Polygon"), C(Arr(<<Arr(<<P2(1,1), P2(3,1), P2(3,4), P2(1,4), P2(1,1)>>)>>)), <<"id", Num(1)>>>>),
+   Obj(<<T("GeometryCollection"), <<"geometries", Arr(<<Obj(<<T("Polygon"), C(Arr(<<Arr(<<P2(1,1), P2(3,1), P2(3,4), P2(1,4), P2(1,1)>>)>>))>>), PointD, LineD, PolyD>>)>>>>),
+   Obj(<<T("GeometryCollection"), <<"geometries", Arr(<<Obj(<<T("MultiPoint"), C(Arr(<<>>))>>), Obj(<<T("Point"), C(P2(4,4))>>),
+                                                           Obj(<<T("GeometryCollection"), <<"geometries", Arr(<<>>)>>>>), LineD, Obj(<<T("Point"), C(P2(5,2))>>)>>)>>>>),
+   Obj(<<T("FeatureCollection"), <<"features", Arr(<<Obj(<<T("Feature"), <<"geometry", Obj(<<T("MultiPolygon"), C(Arr(<<>>))>>)>>>>),
+                                                       Obj(<<T("Feature"), <<"geometry", PolyD>>>>), Obj(<<T("Feature"), <<"geometry", Obj(<<T("Point"), C(P2(4,4))>>)>>>>)>>)>>>>)
+>>
+BaseDocs == IF Mode = "c08" THEN CoreDocs \o ExtraDocs ELSE CoreDocs
 Repl == <<Null, True, Num(1), Str("Nope"), Arr(<<>>), Obj(<<>>), Arr(<<Num(1)>>), Arr(<<Num(1), Num(2), Num(3), Num(4), Num(5)>>), P2(6,6)>>
 NOps == Len(Repl) + 6
 \* mutation m = <<path, op>>
